@@ -9,4 +9,6 @@ def obligations(tier):
     obs += [hdrobs.smuggle(2, 0, 0)] + [o for o in __import__('C17').obligations(tier) if o.name.startswith('table.')]
     # folded lines joined, across chunk boundaries (C03 merge lemma on the folded shape)
     obs += so.split('req', 1, 'x:x\r\n x\r\n\r\n', cuts=(4, 5, 6))
+    # what the request reported is not touched by the response side: an interim 100 forgets the interim RESPONSE fields only
+    obs += [so.res_step(4)]
     return obs
